@@ -47,6 +47,10 @@ def _gen_fresh(r, depth, max_depth, pool):
         return tuple(gen_value(r, depth + 1, max_depth) for _ in range(r.randint(0, 3)))
     if k < 0.67:
         return {kk: gen_value(r, depth + 1, max_depth) for kk in r.sample(KEYS, r.randint(0, 3))}
+    if k < 0.70:
+        return vclasses.Rune(r.choice(STR), r.randint(0, 9))
+    if k < 0.725:
+        return vclasses.Bonus(r.randint(0, 9), r.choice(STR))
     if k < 0.77:
         return vclasses.Card(r.choice(STR), r.randint(0, 21))
     if k < 0.85:
@@ -72,10 +76,10 @@ def _gen_fresh(r, depth, max_depth, pool):
 
 
 def registry():
-    from bardic.stdlib.economy import Wallet
+    from bardic.stdlib.economy import Wallet, Shop
     from bardic.stdlib.inventory import Inventory
     from bardic.stdlib.relationship import Relationship
-    reg = {"Card": vclasses.Card, "Deck": vclasses.Deck, "Purse": vclasses.Purse, "Wallet": Wallet,
+    reg = {"Shop": Shop, "Card": vclasses.Card, "Deck": vclasses.Deck, "Purse": vclasses.Purse, "Rune": vclasses.Rune, "Bonus": vclasses.Bonus, "Wallet": Wallet,
            "Inventory": Inventory, "Relationship": Relationship}
     if vclasses.Backpack is not None:
         reg["Backpack"] = vclasses.Backpack
@@ -131,6 +135,10 @@ def methods_work(v):
         return all(methods_work(x) for x in v.values())
     if isinstance(v, vclasses.Card):
         return v.label() == f"{v.name}#{v.number}"
+    if isinstance(v, vclasses.Rune):
+        return v.label() == f"{v.glyph}^{v.power}"
+    if isinstance(v, vclasses.Bonus):
+        return v(10) == 10 + v.amount
     if isinstance(v, vclasses.Deck):
         return v.count() == len(v.cards) and methods_work(v.cards) and methods_work(v.notes)
     if isinstance(v, vclasses.Purse):
@@ -147,7 +155,7 @@ def methods_work(v):
     return True
 
 
-PROPS_SEEN = ("gold", "trust", "comfort", "openness", "coins", "current_weight")
+PROPS_SEEN = ("gold", "trust", "comfort", "openness", "coins", "current_weight", "discount", "sell_back_rate")
 
 
 def observe(v):
@@ -158,7 +166,8 @@ def observe(v):
     if isinstance(v, set):
         return sorted(observe(x) for x in v)
     if isinstance(v, dict):
-        return {str(k): observe(x) for k, x in v.items()}
+        # a dict is seen in its iteration order (`@for k in d`, `list(d)[0]`): pairs, not a mapping
+        return {"__dict__": [[str(k), observe(x)] for k, x in v.items()]}
     if v is None or isinstance(v, (bool, int, float, str)):
         return v
     out = {"__class__": type(v).__name__}
@@ -241,6 +250,65 @@ def _chunk(arg):
     if cases:
         out["samples"].append(cases[len(cases) // 2]["value"])
     return out
+
+
+def gen_stdlib_value(r, depth=0):
+    """stdlib game objects as stories use them (floats, extra attributes set by the story, shops): real code only"""
+    from bardic.stdlib.economy import Wallet, Shop
+    from bardic.stdlib.inventory import Inventory
+    from bardic.stdlib.relationship import Relationship
+    k = r.random()
+    if depth < 2 and k < 0.25:
+        return [gen_stdlib_value(r, depth + 1) for _ in range(r.randint(1, 3))]
+    if depth < 2 and k < 0.45:
+        return {kk: gen_stdlib_value(r, depth + 1) for kk in r.sample(["shop", "npc", "purse", "bag", "a"], r.randint(1, 3))}
+    if k < 0.65:
+        items = [{"name": r.choice(["Sword", "Gem", "Rope"]), "value": r.randint(0, 90), "weight": r.randint(0, 5)} for _ in range(r.randint(0, 3))]
+        sh = Shop(items, r.choice([0.5, 0.25, 1.0]), r.choice([1.0, 0.5, 0.75, 0.9]))
+        if r.random() < 0.4 and hasattr(sh, "set_discount"):
+            sh.set_discount(r.choice([0.5, 0.8, 0.1]))
+        return sh
+    if k < 0.8:
+        rel = Relationship(r.choice(["Alex", "Mira"]), r.randint(0, 100), r.randint(0, 100), r.randint(-10, 10))
+        if r.random() < 0.6:
+            rel.mood = r.choice(["wary", "warm"])          # an attribute the story itself put on the object
+        if r.random() < 0.3:
+            rel.gifts = [r.randint(0, 5)]
+        return rel
+    if k < 0.9:
+        w = Wallet(r.randint(0, 90))
+        if r.random() < 0.4:
+            w.owner = "Ayla"
+        return w
+    inv = Inventory(r.randint(5, 20))
+    for _ in range(r.randint(0, 3)):
+        inv.add({"name": r.choice(["Sword", "Gem"]), "weight": r.randint(0, 6), "value": r.randint(0, 9)})
+    return inv
+
+
+def stdlib_observation_family(rep, n):
+    """C05 / C06 on stdlib objects as stories keep them: what a story can observe of the value is the same after
+    save -> JSON text -> load into a fresh engine (real code only; floats and story-set attributes are outside the codec model)"""
+    fails = 0
+    for idx in range(n):
+        r = rng_for(rep.seed, "stdlib-obs", idx)
+        v = gen_stdlib_value(r)
+        before = observe(v)
+        try:
+            _, loaded = real_roundtrip(v)
+        except Exception as e:  # noqa
+            rep.violations.append({"cls": None, "family": "stdlib-observation", "what": f"save/load of a stdlib value raised {type(e).__name__}: {str(e)[:120]}",
+                                   "value": json.dumps(before)[:600]})
+            fails += 1
+            continue
+        after = observe(loaded)
+        if after != before:
+            rep.violations.append({"cls": None, "family": "stdlib-observation",
+                                   "what": "a stdlib game object differs observably after save -> JSON -> load: " + json.dumps(first_diff(before, after, ""))[:240],
+                                   "value": json.dumps(before)[:600]})
+            fails += 1
+    rep.coverage.setdefault("families", {})["stdlib-observation"] = {"cases": n, "failing": fails}
+    rep.coverage["evaluations"] = rep.coverage.get("evaluations", 0) + n
 
 
 def codec_family(rep, n_cases, max_depth, nproc=16):
